@@ -533,3 +533,117 @@ func TestRegress_C16_total(t *testing.T) {
 		t.Fatalf("SubsetAccumulation(nil,nil) = %s, want 7", got)
 	}
 }
+
+const rmRule = "load phase (distinct keys, fan-out in {2..8,10,16,32}) followed by a removal phase in a generated order that includes the index keys of nodes (nodes empty, siblings merge, levels collapse); no insertion after the first removal and queries only at keys that are present, which is the part of the behaviour the listed finding C16-remove-index-key does not touch; oracle after every removal: total, Get / PrefixSum / SplitAcc at every present key, SubsetAccumulation between present keys and ordered iteration equal the sorted map; non-trivial = a removal emptied a node; distinct by (fan-out, keys, order) hash"
+
+// TestPropSumtreeRemovals covers what TestPropSumtree steers around while C16-remove-index-key is listed: removals of
+// index keys. After such a removal the tree routes ABSENT keys wrongly (the listed finding); sums over PRESENT keys must
+// still be right, through every node that empties and every sibling merge.
+func TestPropSumtreeRemovals(t *testing.T) {
+	drv.Check(t, drv.Cfg{Name: "sumtree-removal-phase", Rule: rmRule, Quick: 600, Thorough: 30000}, func(rt *rapid.T, c *drv.Case) {
+		m := []uint8{2, 3, 4, 5, 6, 7, 8, 10, 16, 32}[rapid.IntRange(0, 9).Draw(rt, "fanoutIdx")]
+		store := newStore()
+		tree := sumtree.NewTree(store, m)
+		md := &model{m: map[string]*big.Int{"": new(big.Int)}}
+		n := rapid.IntRange(4, 6*int(m)+8).Draw(rt, "keys")
+		stride := 2*rapid.IntRange(0, 400).Draw(rt, "stride") + 1
+		start := rapid.IntRange(0, 65535).Draw(rt, "start")
+		var keys []string
+		for i := 0; i < n; i++ {
+			x := (start + i*stride) % 65536
+			k := []byte{byte(x >> 8), byte(x)}
+			v := big.NewInt(rapid.Int64Range(-1000, 1_000_000).Draw(rt, "v"))
+			tree.Set(k, toInt(v))
+			if _, dup := md.m[string(k)]; !dup {
+				keys = append(keys, string(k))
+			}
+			md.m[string(k)] = v
+		}
+		nodesBefore := func() int {
+			lv, err := audit(store)
+			if err != nil {
+				rt.Fatalf("structural audit after the load phase: %v", err)
+			}
+			s := 0
+			for l, cnt := range lv {
+				if l >= 1 {
+					s += cnt
+				}
+			}
+			return s
+		}()
+		order := rapid.Permutation(keys).Draw(rt, "removalOrder")
+		nrm := rapid.IntRange(1, len(order)).Draw(rt, "removals")
+		emptied := false
+		var hist []string
+		for _, k := range order[:nrm] {
+			tree.Remove([]byte(k))
+			delete(md.m, k)
+			hist = append(hist, fmt.Sprintf("%x", k))
+			present := md.keys()
+			cmpInt(rt, fmt.Sprintf("after removing %x: TotalAccumulatedValue()", k), tree.TotalAccumulatedValue(), md.sum(func(string) bool { return true }))
+			for i, p := range present {
+				pb := []byte(p)
+				cmpInt(rt, fmt.Sprintf("after removing %x: Get(%x)", k, p), tree.Get(pb), md.m[p])
+				cmpInt(rt, fmt.Sprintf("after removing %x: PrefixSum(%x)", k, p), tree.PrefixSum(pb), md.sum(func(x string) bool { return x <= p }))
+				l, e, r := tree.SplitAcc(pb)
+				cmpInt(rt, fmt.Sprintf("after removing %x: SplitAcc(%x).left", k, p), l, md.sum(func(x string) bool { return x < p }))
+				cmpInt(rt, fmt.Sprintf("after removing %x: SplitAcc(%x).exact", k, p), e, md.m[p])
+				cmpInt(rt, fmt.Sprintf("after removing %x: SplitAcc(%x).right", k, p), r, md.sum(func(x string) bool { return x > p }))
+				if i%3 == 0 {
+					q := present[(i*7+3)%len(present)]
+					lo, hi := p, q
+					if lo > hi {
+						lo, hi = hi, lo
+					}
+					cmpInt(rt, fmt.Sprintf("after removing %x: SubsetAccumulation(%x,%x)", k, lo, hi), tree.SubsetAccumulation([]byte(lo), []byte(hi)), md.sum(func(x string) bool { return x >= lo && x <= hi }))
+				}
+			}
+			checkIter(rt, tree, md, nil, nil)
+		}
+		it := store.Iterator(nil, nil)
+		nodesAfter := 0
+		for ; it.Valid(); it.Next() {
+			if k := it.Key(); len(k) >= 7 && binary.BigEndian.Uint16(k[5:7]) >= 1 {
+				nodesAfter++
+			}
+		}
+		it.Close()
+		if nodesAfter < nodesBefore {
+			emptied = true
+			c.Class("node-emptied")
+		}
+		c.Class(fmt.Sprintf("fanout=%d", m))
+		if emptied {
+			c.NonTrivial(fmt.Sprintf("m=%d|%d|%d|%d|%s", m, n, start, stride, strings.Join(hist, ",")))
+			c.Samplef("fanout=%d keys=%d removed=[%s]", m, n, strings.Join(hist, " "))
+		}
+	})
+}
+
+// TestRegress_C16_merge_sum: fixed finding C16-merge-drops-right-sum must stay fixed (fan-out 4, 16 keys, the removal
+// that empties a node whose two siblings are then merged).
+func TestRegress_C16_merge_sum(t *testing.T) {
+	for _, m := range []uint8{3, 4, 5, 6} {
+		store := newStore()
+		tr := sumtree.NewTree(store, m)
+		want := int64(0)
+		var keys [][]byte
+		for i := 0; i < 30; i++ {
+			k := []byte(fmt.Sprintf("k%02d", i))
+			keys = append(keys, k)
+			tr.Set(k, osmomath.NewInt(int64(i+1)))
+			want += int64(i + 1)
+		}
+		// remove every second block of keys so that inner nodes empty between surviving siblings
+		for i := 0; i < 30; i++ {
+			if (i/int(m))%2 == 1 {
+				tr.Remove(keys[i])
+				want -= int64(i + 1)
+				if got := tr.TotalAccumulatedValue(); got.Int64() != want {
+					t.Fatalf("fan-out %d: after removing %s TotalAccumulatedValue = %s, the remaining leaves sum to %d", m, keys[i], got, want)
+				}
+			}
+		}
+	}
+}
